@@ -136,7 +136,7 @@ class WorldT16 : public World
         plan["max_stack_steps"] = thorough ? 200 : 10;
         plan["max_caps"] = thorough ? 64 : 6;
         plan["fault_seed"] = (std::uint64_t)rf.next();
-        plan["step_budget"] = 200000;
+        plan["step_budget"] = 60000;
         return plan;
     }
 
